@@ -56,7 +56,18 @@ pub mod asset {
             let s1 = match self.seg[1] { None => 0u8, Some((p, c)) => 1u8.wrapping_add(p.wrapping_mul(7)).wrapping_add(c.wrapping_mul(11)) };
             IbcPrefixed(self.base.wrapping_mul(13).wrapping_add(s0).wrapping_add(s1.wrapping_mul(17)) | 0x80)
         }
-        pub fn any() -> Self { TracePrefixed { seg: [kani::any(), kani::any()], base: kani::any() } }
+        pub fn any() -> Self {
+            let t = TracePrefixed { seg: [kani::any(), kani::any()], base: kani::any() };
+            kani::assume(!(t.seg[0].is_none() && t.seg[1].is_some()));   // segments are a prefix list
+            t
+        }
+        pub fn has_leading_port(&self, port: &super::PortId) -> bool { match self.seg[0] { Some((p, _)) => p == port.0, None => false } }
+        pub fn has_leading_channel(&self, channel: &super::ChannelId) -> bool { match self.seg[0] { Some((_, c)) => c == channel.0, None => false } }
+        pub fn pop_leading_port_and_channel(&mut self) -> Option<(u8, u8)> { let r = self.seg[0]; self.seg[0] = self.seg[1]; self.seg[1] = None; r }
+        /// `format!("{port}/{channel}/{asset}").parse()`: the denom with one more leading segment (None if the model has no room)
+        pub fn vx_with_prefix(&self, port: &super::PortId, channel: &super::ChannelId) -> Option<TracePrefixed> {
+            if self.seg[1].is_some() { None } else { Some(TracePrefixed { seg: [Some((port.0, channel.0)), self.seg[0]], base: self.base }) }
+        }
     }
     #[derive(Clone, Copy, Debug, PartialEq, Eq)]
     pub enum Denom { TracePrefixed(TracePrefixed), IbcPrefixed(IbcPrefixed) }
@@ -77,6 +88,12 @@ pub mod asset {
 }
 pub use asset::{Denom, IbcPrefixed, TracePrefixed};
 
+#[derive(Clone, Copy, Debug, PartialEq, Eq)]
+pub struct PortId(pub u8);
+#[derive(Clone, Copy, Debug, PartialEq, Eq)]
+pub struct ChannelId(pub u8);
+impl std::fmt::Display for PortId { fn fmt(&self, _f: &mut std::fmt::Formatter<'_>) -> std::fmt::Result { Ok(()) } }
+impl std::fmt::Display for ChannelId { fn fmt(&self, _f: &mut std::fmt::Formatter<'_>) -> std::fmt::Result { Ok(()) } }
 #[derive(Clone, Copy, Debug, PartialEq, Eq)]
 pub struct RollupId(pub u8);
 #[derive(Clone, Copy, Debug, PartialEq, Eq)]
@@ -425,11 +442,17 @@ pub mod ibc_shim {
             if let Some(e) = io_err() { return e; }
             Ok(store().get(Key::IbcRelayer(*address.address_bytes())).is_some())
         }
-        fn get_ibc_channel_balance<'a, TAsset>(&self, channel: &u8, asset: &'a TAsset) -> eyre::Result<u128>
+        fn has_ibc_asset<'a, TAsset>(&self, asset: &'a TAsset) -> eyre::Result<bool>
         where TAsset: Sync + 'a, &'a TAsset: Into<Cow<'a, asset::IbcPrefixed>> {
             if let Some(e) = io_err() { return e; }
             let x: Cow<'a, IbcPrefixed> = asset.into();
-            match store().get(Key::IbcChannelBalance(*channel, *x)) { Some(v) => Ok(v), None => Ok(0) }
+            Ok(store().get(Key::IbcAsset(*x)).is_some())
+        }
+        fn get_ibc_channel_balance<'a, TAsset>(&self, channel: &ChannelId, asset: &'a TAsset) -> eyre::Result<u128>
+        where TAsset: Sync + 'a, &'a TAsset: Into<Cow<'a, asset::IbcPrefixed>> {
+            if let Some(e) = io_err() { return e; }
+            let x: Cow<'a, IbcPrefixed> = asset.into();
+            match store().get(Key::IbcChannelBalance(channel.0, *x)) { Some(v) => Ok(v), None => Ok(0) }
         }
     }
     impl<T: StateRead + ?Sized> StateReadExt for T {}
@@ -437,10 +460,11 @@ pub mod ibc_shim {
         fn put_ibc_sudo_address<T: AddressBytes>(&mut self, address: T) -> eyre::Result<()> { store().put(Key::IbcSudo, addr_val(address.address_bytes())); Ok(()) }
         fn put_ibc_relayer_address<T: AddressBytes>(&mut self, address: &T) -> eyre::Result<()> { store().put(Key::IbcRelayer(*address.address_bytes()), 0); Ok(()) }
         fn delete_ibc_relayer_address<T: AddressBytes>(&mut self, address: &T) { store().delete(Key::IbcRelayer(*address.address_bytes())); }
-        fn put_ibc_channel_balance<'a, TAsset>(&mut self, channel: &u8, asset: &'a TAsset, balance: u128) -> eyre::Result<()>
+        fn put_ibc_asset(&mut self, asset: TracePrefixed) -> eyre::Result<()> { store().put(Key::IbcAsset(asset.to_ibc_prefixed()), 1); Ok(()) }
+        fn put_ibc_channel_balance<'a, TAsset>(&mut self, channel: &ChannelId, asset: &'a TAsset, balance: u128) -> eyre::Result<()>
         where TAsset: Sync + 'a, &'a TAsset: Into<Cow<'a, asset::IbcPrefixed>> {
             let x: Cow<'a, IbcPrefixed> = asset.into();
-            store().put(Key::IbcChannelBalance(*channel, *x), balance); Ok(())
+            store().put(Key::IbcChannelBalance(channel.0, *x), balance); Ok(())
         }
     }
     impl<T: StateWrite + ?Sized> StateWriteShim for T {}
@@ -521,6 +545,7 @@ pub mod upgrades_shim {
     pub struct DisableableBridgeAccountDeposits; impl DisableableBridgeAccountDeposits { pub const NAME: u8 = 11; }
     pub struct AllowIbcRelayToFail; impl AllowIbcRelayToFail { pub const NAME: u8 = 12; }
     pub struct ValidatorUpdateActionChange; impl ValidatorUpdateActionChange { pub const NAME: u8 = 13; }
+    pub struct Ics20TransferActionChange; impl Ics20TransferActionChange { pub const NAME: u8 = 14; }
     pub trait StateReadExt: StateRead {
         fn get_upgrade_change_info(&self, _upgrade: &u8, change: &u8) -> eyre::Result<Option<()>> {
             if let Some(e) = io_err() { return e; }
@@ -529,7 +554,7 @@ pub mod upgrades_shim {
     }
     impl<T: StateRead + ?Sized> StateReadExt for T {}
 }
-pub use upgrades_shim::{StateReadExt as _, Blackburn, Aspen, DisableableBridgeAccountDeposits, AllowIbcRelayToFail, ValidatorUpdateActionChange};
+pub use upgrades_shim::{StateReadExt as _, Blackburn, Aspen, DisableableBridgeAccountDeposits, AllowIbcRelayToFail, ValidatorUpdateActionChange, Ics20TransferActionChange};
 
 pub fn reset_store() {
     let s = store();
